@@ -300,6 +300,10 @@ class Intervals:
                 st['L'][l] = v
             if r['k'] == 'use':
                 q = r['o'].get('c') or r['o'].get('m')
+                if q is not None and getattr(self, 'range_end', None) and q.get('pj') and q['l'] in self.range_end and \
+                        len(q['pj']) == 2 and isinstance(q['pj'][0], dict) and q['pj'][0].get('dc') == 'Some':
+                    # loop variable of `for i in a..end`: i < end
+                    st.setdefault('R', set()).add((l, self.range_end[q['l']]))
                 if q is not None:
                     if 'pj' not in q:
                         if q['l'] != l:
@@ -529,8 +533,73 @@ class Intervals:
             out.append((s, st))
         return out
 
+    def _range_ends(self):
+        """dest local of `<Range<_> as Iterator>::next(&mut it)` -> local holding the (never reassigned) end of the range
+        `it` was built from: the yielded value is < end"""
+        body = self.body
+        out = {}
+        d, _partial = body.defs()
+
+        def only_def(l):
+            defs = d.get(l, [])
+            return defs[0] if len(defs) == 1 else None
+        for bb, t in body.calls():
+            info = call_info(t)
+            if not info or not info['fn'].endswith('Iterator::next') or 'pj' in t['dest'] or not t['args']:
+                continue
+            a0 = (info.get('args') or [''])[0]
+            if not re.match(r'std::ops::Range<[iu](\d+|size)>$', a0):
+                continue
+            pl = t['args'][0].get('m') or t['args'][0].get('c')
+            l = pl['l'] if pl is not None and 'pj' not in pl else None
+            hops = 0
+            end = None
+            while l is not None and hops < 8:
+                hops += 1
+                df = only_def(l)
+                if df is None:
+                    break
+                if df[0] == 'stmt':
+                    r = df[3]['r']
+                    if r['k'] == 'ref' and (r['p'].get('pj') in (None, [], ['*'])):
+                        l = r['p']['l']
+                        continue
+                    if r['k'] == 'use':
+                        q = r['o'].get('m') or r['o'].get('c')
+                        l = q['l'] if q is not None and 'pj' not in q else None
+                        continue
+                    if r['k'] == 'agg' and (r.get('adt') or '') == 'std::ops::Range' and len(r['ops']) == 2:
+                        q = r['ops'][1].get('m') or r['ops'][1].get('c')
+                        if q is not None and 'pj' not in q:
+                            end = q['l']
+                    break
+                if df[0] == 'call':
+                    ci = call_info(df[2])
+                    if ci and ci['fn'].endswith('IntoIterator::into_iter') and df[2]['args']:
+                        q = df[2]['args'][0].get('m') or df[2]['args'][0].get('c')
+                        l = q['l'] if q is not None and 'pj' not in q else None
+                        continue
+                    break
+                break
+            if end is None:
+                continue
+            # the end operand is a temp copy of a variable: follow to a local that is assigned exactly once (or a parameter)
+            e = end
+            for _ in range(4):
+                df = only_def(e)
+                if df is not None and df[0] == 'stmt' and df[3]['r']['k'] == 'use':
+                    q = df[3]['r']['o'].get('m') or df[3]['r']['o'].get('c')
+                    if q is not None and 'pj' not in q:
+                        e = q['l']
+                        continue
+                break
+            if e <= body.arg_count or only_def(e) is not None:
+                out[t['dest']['l']] = e
+        return out
+
     def run(self):
         body = self.body
+        self.range_end = self._range_ends()
         st0 = self.new_state()
         for l, iv in self.param_ranges.items():
             st0['L'][l] = iv
@@ -847,6 +916,7 @@ def obligations(body, ia=None):
     """list of dict(kind, key, bb, discharged, detail)"""
     out = _obligations(body, ia)
     for o in out:
+        o['ops_raw'] = o['ops']
         o['ops'] = alpha(o['ops'])
     return out
 
@@ -881,8 +951,76 @@ def obligations_in_context(facts, body, keep=None):
     return _merged_obligations(nb, ia, own_only=True)
 
 
+CANON_V5 = os.environ.get('VERIF_PO_CANON', 'new') not in ('old', 'v2', 'v3', 'v4')
+
+
+class KeyBody(object):
+    """a body presented to the rules under the path its obligations are keyed by (closures: their root function)"""
+    def __init__(self, body, path):
+        self._b = body
+        self.path = path
+        self.key_path = path
+
+    def __getattr__(self, name):
+        return getattr(self._b, name)
+
+
+def closure_vocabulary(facts, cb, depth=0):
+    """for a closure body: (path of the function it is written in, {captured variable name: canonical text of that
+    variable in the enclosing function}). Obligations of a closure are keyed in the vocabulary of the enclosing function,
+    so moving arithmetic between a closure and its parent does not change a key."""
+    parent_path = cb.raw.get('parent') or cb.raw.get('root')
+    pb = facts.bodies.get(parent_path) if parent_path else None
+    if pb is None or depth > 3:
+        return cb.path, {}
+    pv = facts.view(pb)
+    lit = None
+    for cand in (pv, pb):
+        for bb in range(cand.n):
+            for st in cand.stmts(bb):
+                if st['k'] == 'assign' and st['r'].get('k') == 'agg' and st['r'].get('ak') == 'closure' and \
+                        st['r'].get('closure') == cb.path:
+                    lit = (cand, st)
+        if lit:
+            break
+    if lit is None:
+        return cb.path, {}
+    cand, st = lit
+    names = canon_names(cand)
+    vocab = {}
+    ups = cb.raw.get('upvars') or []
+    for k, u in enumerate(ups):
+        if k < len(st['r']['ops']) and u.get('name'):
+            vocab[u['name']] = canon_expr(cand, st['r']['ops'][k], names)
+    root_path = parent_path
+    if pb.kind == 'Closure':
+        root_path, pvocab = closure_vocabulary(facts, pb, depth + 1)
+        # captured variables of the parent closure, expressed once more in its parent's vocabulary
+        for k in list(vocab):
+            vocab[k] = _subst_upvars(vocab[k], pvocab)
+    return root_path, vocab
+
+
+def _subst_upvars(text, vocab):
+    if not vocab:
+        return text
+    return re.sub(r'arg1\.\^(\w+)', lambda m: vocab.get(m.group(1), m.group(0)), text)
+
+
 def _po_policy(facts, caller, callee, keep):
     return callee.kind in ('Fn', 'AssocFn', 'Closure') and not (keep is not None and keep(callee.path)) and len(callee.blocks) <= 120
+
+
+def _keyed(facts, b, obs):
+    """closures: re-express the operands of their obligations in the vocabulary of the enclosing function and key them by it"""
+    if b.kind != 'Closure' or not CANON_V5:
+        return b
+    root, vocab = closure_vocabulary(facts, b)
+    # variables of the enclosing function get their own number space before the per-key alpha renaming
+    vocab = {k: re.sub(r'\bv(\d+)\b', r'v7\1', v) for k, v in vocab.items()}
+    for o in obs:
+        o['ops'] = alpha(_subst_upvars(o.get('ops_raw', o['ops']), vocab))
+    return KeyBody(b, root)
 
 
 def scan(facts, bodies, known, field_inv=None):
@@ -908,7 +1046,7 @@ def scan(facts, bodies, known, field_inv=None):
         covered.update(getattr(nb, 'inlined_callees', []))
         ia = Intervals(nb, facts, field_inv=field_inv).run() if field_inv is not None else Intervals(nb, facts).run()
         obs = obligations(b, ia) if nb is b else _merged_obligations(nb, ia)
-        out.append((b, nb, ia, obs))
+        out.append((_keyed(facts, b, obs), nb, ia, obs))
     for b in later:
         if b.path in covered:
             continue
@@ -916,7 +1054,7 @@ def scan(facts, bodies, known, field_inv=None):
         covered.update(getattr(nb, 'inlined_callees', []))
         ia = Intervals(nb, facts, field_inv=field_inv).run() if field_inv is not None else Intervals(nb, facts).run()
         obs = obligations(b, ia) if nb is b else _merged_obligations(nb, ia)
-        out.append((b, nb, ia, obs))
+        out.append((_keyed(facts, b, obs), nb, ia, obs))
     # fail closed: a call to a crate function that is neither known, nor analysed in place, nor in the rule's body list
     listed = {b.path for b in bodies}
     for (b, nb, ia, obs) in out:
